@@ -145,8 +145,12 @@ class Ctx(object):
         # (worker processes leave through os._exit, so their own atexit handlers would never run)
         import tempfile
 
-        self.tmp_root = tempfile.mkdtemp(prefix="cutplace_verif_run_")
+        # scratch files are small and short-lived: a memory file system (if there is one) spares the disk and the kernel's directory locks
+        base = os.environ.get("VERIF_SCRATCH") or ("/dev/shm" if os.path.isdir("/dev/shm") and os.access("/dev/shm", os.W_OK) else None)
+        self.tmp_root = tempfile.mkdtemp(prefix="cutplace_verif_run_", dir=base)
         os.environ["VERIF_TMP"] = self.tmp_root
+        os.environ["TMPDIR"] = self.tmp_root  # temporary files of libraries used by the producers (xlsxwriter) go there as well
+        tempfile.tempdir = self.tmp_root
 
     # ---- parallel driver -------------------------------------------------------
     def pool(self):
